@@ -87,3 +87,194 @@ def register(reg):
     for c in (HEADERS_INIT, BASE_INIT, A_RESPONSE_CALL, W_RESPONSE_CALL):
         reg.add(c)
     reg._opaque_index["StatusMap"] = c02.status_index
+    register2(reg)
+    register3(reg)
+
+
+# =========================================================================== SmallResponse / Redirect (both interfaces)
+def render_stub(ev, args, kwargs, node):
+    """self.render(content): the subclass hook; returns bytes (checked for the three bundled subclasses separately)"""
+    return ev.st.ghost["body"]
+
+
+render_stub.mods = ()
+
+
+def small_self(cls):
+    return ObjT(cls, headers=MH_T, cookies=List(Opaque("Cookie")), status_code=Int, content=Opaque("Content"),
+                media_type=Str, charset=Str)
+
+
+SMALL_DEFS = dict(c02.HDEFS)
+SMALL_DEFS.update({
+    "ct_value()": "self.media_type + '; charset=' + self.charset if self.media_type.startswith('text/') else self.media_type",
+    "sets_cl()": "body != b'' and not has(old(self.headers._dict), 'content-length')",
+    "sets_ct()": "self.media_type != '' and not has(old(self.headers._dict), 'content-type')",
+})
+
+W_SMALL_CALL = Contract(
+    id="wsgi.SmallResponse.__call__", file=W, qualname="SmallResponse.__call__", props=["C05"], generator=True,
+    params={"self": small_self(W + ":SmallResponse"), "environ": Opaque("Environ"),
+            "start_response": TFunc(c02.start_response_stub, "start_response")},
+    ghosts={"tr": c02.TR_T, "out": c02.OUT_T, "body": Bytes},
+    requires=["tr.n_start == 0", "out.n_yield == 0", "out.out_len == 0"],
+    defs=SMALL_DEFS, ufuncs=c02.HUF, consts=c02.wsgi_consts(),
+    stubs={"self.render": render_stub},
+    on_yield=c02.call_yield, yield_mods=("out",),
+    modifies=["self.headers._dict"], ghost_modifies=["tr", "out"],
+    raises={"ValueError": "sets_ct() and unclean(ct_value())"},
+    raises_ensures={"ValueError": {"ensures": ["tr.n_start == 0 and out.n_yield == 0"]}},
+    ensures={
+        "start.once": "tr.n_start == 1", "status": "tr.status == status_line(self.status_code)",
+        "one_chunk": "out.n_yield == 1 and out.out_len == len(body)",
+        "content-length": "implies(sets_cl(), hdr_is('content-length', str(len(body))))",
+        "content-type": "implies(sets_ct(), hdr_is('content-type', ct_value()))",
+        "others": "forall((k, Str), implies(k != 'content-length' and k != 'content-type', "
+                  "hl_has(tr.hl, k) == has(old(self.headers._dict), k) and "
+                  "implies(hl_has(tr.hl, k), hl_get(tr.hl, k) == old(self.headers._dict)[k])))",
+    },
+    canaries={"never_sets_length": "not hl_has(tr.hl, 'content-length')"},
+    assumptions=["A-server", "A-list-headers", "A-status-table"],
+)
+
+A_SMALL_CALL = Contract(
+    id="asgi.SmallResponse.__call__", file=A, qualname="SmallResponse.__call__", props=["C05"],
+    params={"self": small_self(A + ":SmallResponse"), "scope": Opaque("Scope"), "receive": Opaque("Receive"),
+            "send": TFunc(c02.send_stub, "send")},
+    ghosts={"tr": c02.TR_T, "out": c02.OUT_T, "body": Bytes},
+    requires=["tr.n_start == 0", "out.n_body == 0", "out.out_len == 0", "not out.closed"],
+    setup=lambda ev: c02.ghost_init(ev, phase=VInt(4)),
+    defs=SMALL_DEFS, ufuncs=c02.HUF,
+    stubs={"self.render": render_stub},
+    modifies=["self.headers._dict"], ghost_modifies=["tr", "out"],
+    raises={"ValueError": "sets_ct() and unclean(ct_value())"},
+    raises_ensures={"ValueError": {"ensures": ["tr.n_start == 0 and out.n_body == 0"]}},
+    ensures={
+        "start.once": "tr.n_start == 1", "status": "tr.code == self.status_code",
+        "one_final_body": "out.n_body == 1 and out.closed and out.out_len == len(body)",
+        "content-length": "implies(sets_cl(), hdr_is('content-length', str(len(body))))",
+        "content-type": "implies(sets_ct(), hdr_is('content-type', ct_value()))",
+    },
+    canaries={"never_sets_length": "not hl_has(tr.hl, 'content-length')"},
+    assumptions=["A-server", "A-list-headers"],
+)
+
+
+def iri_stub(ev, args, kwargs, node):
+    """iri_to_uri(s) = quote(s, safe=...) (A-quote-1): only unreserved, the safe set and %HH: no CR, LF, NUL"""
+    USED.add("A-quote-1")
+    from pyvc.builtins import ufunc, S
+    r = ufunc("iri_to_uri", S, S)(args[0].t)
+    for ch in ("\n", "\r", "\0"):
+        ev.st.assume(z3.Not(z3.Contains(r, z3.StringVal(ch))))
+    return VStr(r)
+
+
+def redirect(file_, iface):
+    return Contract(
+        id=iface + ".RedirectResponse.__init__", file=file_, qualname="RedirectResponse.__init__", props=["C13", "C05"],
+        params={"self": ObjT(file_ + ":RedirectResponse"), "url": Str, "status_code": Int, "headers": Opt(PAIRS)},
+        defs=HDEFS, stubs={"iri_to_uri": iri_stub}, ufuncs={"iri_to_uri": ([Str], Str)},
+        frame_check=False,
+        raises={},   # the escaped target can never be rejected by the header mapping: escaping, not an error
+        ensures={"location": "has(self.headers._dict, 'location') and self.headers._dict['location'] == iri_to_uri(url)",
+                 "location.clean": "not unclean(self.headers._dict['location'])",
+                 "status": "self.status_code == status_code"},
+        assumptions=["A-quote-1"],
+    )
+
+
+W_REDIRECT = redirect(W, "wsgi")
+A_REDIRECT = redirect(A, "asgi")
+
+
+def register2(reg):
+    for c in (W_SMALL_CALL, A_SMALL_CALL, W_REDIRECT, A_REDIRECT):
+        reg.add(c)
+
+
+# =========================================================================== StreamingResponse.__call__
+def ensure_future_stub(ev, args, kwargs, node):
+    USED.add("A-conc-1")
+    return ev.st.alloc(Obj("Future", {}))
+
+
+def future_cancel(ev, recv, args, kwargs, node):
+    return VBool(True)
+
+
+future_cancel.mods = ()
+future_cancel.mutates_recv = False
+
+
+def wait_close_stub(ev, args, kwargs, node):
+    """self.wait_close(receive): the watcher coroutine; it only ever sets self._client_closed (modelled as volatile)"""
+    return ev.st.alloc(Obj("Coroutine", {}))
+
+
+def render_stream_stub(ev, args, kwargs, node):
+    return ev.st.alloc(Obj("AGen", {"closed": VBool(False), "n_sent": VInt(0)}))
+
+
+def agen_asend(ev, recv, args, kwargs, node):
+    """the body producer: yields bytes, ends (StopAsyncIteration) or raises its own exception at any point"""
+    st = ev.st
+    g = st.obj(recv)
+    k = st.choose([z3.BoolVal(True), z3.BoolVal(True), z3.BoolVal(True)], force_record=True)
+    if k == 1:
+        from pyvc.engine import PyRaise
+        raise PyRaise("StopAsyncIteration", None, getattr(node, "lineno", 0))
+    if k == 2:
+        from pyvc.engine import PyRaise
+        raise PyRaise("ProducerError", None, getattr(node, "lineno", 0))
+    g.fields["n_sent"] = VInt(g.fields["n_sent"].t + 1)
+    return st.fresh(Bytes, "produced")
+
+
+agen_asend.mods = ()
+
+
+def agen_aclose(ev, recv, args, kwargs, node):
+    g = ev.st.obj(recv)
+    c = ev.frame.outermost().contract
+    g.fields["closed"] = VBool(True)
+    gh = ev.st.obj(ev.st.ghost["gen"])
+    gh.fields["n_close"] = VInt(gh.fields["n_close"].t + 1)
+    return NONE
+
+
+agen_aclose.mods = ("gen",)
+
+A_STREAMING_CALL = Contract(
+    id="asgi.StreamingResponse.__call__", file=A, qualname="StreamingResponse.__call__", props=["C05"],
+    params={"self": ObjT(A + ":StreamingResponse", headers=MH_T, cookies=List(Opaque("Cookie")), status_code=Int,
+                         _client_closed=Bool, iterable=Opaque("AsyncIterable")),
+            "scope": Opaque("Scope"), "receive": Opaque("Receive"), "send": TFunc(c02.send_stub, "send")},
+    ghosts={"tr": c02.TR_T, "out": c02.OUT_T, "gen": ObjT("GenGhost", n_close=Int)},
+    requires=["tr.n_start == 0", "out.n_body == 0", "out.out_len == 0", "not out.closed", "gen.n_close == 0"],
+    setup=lambda ev: c02.ghost_init(ev, phase=VInt(4)),
+    defs=c02.A_DEFS, ufuncs=c02.HUF,
+    stubs={"asyncio.ensure_future": ensure_future_stub, "self.wait_close": wait_close_stub, "self.render_stream": render_stream_stub},
+    stub_methods={("Future", "cancel"): future_cancel, ("AGen", "asend"): agen_asend, ("AGen", "aclose"): agen_aclose},
+    volatile=["self._client_closed"],
+    modifies=["self._client_closed"], ghost_modifies=["tr", "out", "gen"],
+    raises={"ProducerError": "True"},
+    raises_ensures={"ProducerError": {"ensures": [
+        "tr.n_start == 1 and not out.closed",            # what was emitted is a legal prefix: start, body(more)*
+        "gen.n_close == 1"]}},                           # the producer was closed exactly once
+    ensures={"start.once": "tr.n_start == 1", "status": "tr.code == self.status_code",
+             "final_body": "out.closed and out.n_body >= 1", "producer_closed_once": "gen.n_close == 1"},
+    invariants={1: ["tr.n_start == 1", "not out.closed", "out.n_body >= 0", "gen.n_close == 0", "generator.closed == False"]},
+    canaries={"never_streams": "out.n_body == 1"},
+    assumptions=["A-server", "A-list-headers", "A-conc-1"],
+    notes="the body producer is an abstract async generator (bytes | StopAsyncIteration | its own exception at any step); "
+          "_client_closed is volatile (set by the watcher task at any await)",
+)
+
+BUILTIN_EXTRA_EXC = {"ProducerError": "Exception"}
+
+
+def register3(reg):
+    from pyvc import engine
+    engine.BUILTIN_EXC.update(BUILTIN_EXTRA_EXC)
+    reg.add(A_STREAMING_CALL)
